@@ -48,15 +48,16 @@ func (c rcfg) String() string {
 // programs built from one tree
 
 const (
-	progMount     = iota // P : mounts as written (sub-app populated, then mounted)
-	progMountLate        // P : mounts as written, sub-app mounted first and populated afterwards (the documented example order)
-	progGroup            // P' : every mount(prefix, sub) replaced by group(prefix){sub's items}
-	progFlat             // P'': P' with every group prefix folded into the full path, registered on the root app
-	progRoute            // P''': P' with every group replaced by a Route(prefix) chain: app.Route(a).Route(b).Route(pattern).Get(h)
-	progMountCfg         // P : like P(mounts) but every sub-app is created with the OPPOSITE CaseSensitive/StrictRouting of the parent
+	progMount        = iota // P : mounts as written (sub-app populated, then mounted)
+	progMountLate           // P : mounts as written, sub-app mounted first and populated afterwards (the documented example order)
+	progGroup               // P' : every mount(prefix, sub) replaced by group(prefix){sub's items}
+	progFlat                // P'': P' with every group prefix folded into the full path, registered on the root app
+	progRoute               // P''': P' with every group replaced by a Route(prefix) chain: app.Route(a).Route(b).Route(pattern).Get(h)
+	progMountCfg            // P : like P(mounts) but every sub-app is created with the OPPOSITE CaseSensitive/StrictRouting of the parent
+	progMountRebuild        // P : like P(mounts) with a redundant app.RebuildTree() (documented, idempotent refresh) after the last registration, before start-up
 )
 
-var progNames = [...]string{"P(mounts)", "P(mounts, populated after mounting)", "P'(groups)", "P''(full paths)", "P'''(Route chains)", "P(mounts, sub-apps with another routing config)"}
+var progNames = [...]string{"P(mounts)", "P(mounts, populated after mounting)", "P'(groups)", "P''(full paths)", "P'''(Route chains)", "P(mounts, sub-apps with another routing config)", "P(mounts, app.RebuildTree() called before start-up)"}
 
 const maxLeaves = 12
 
@@ -423,7 +424,7 @@ func (e *exec) build(t *tree, c rcfg, prog int, plan map[int]int) (h fasthttp.Re
 	e.resetSubs()
 	id := 0
 	switch prog {
-	case progMount, progMountLate, progGroup, progMountCfg:
+	case progMount, progMountLate, progGroup, progMountCfg, progMountRebuild:
 		e.regItems(app, t.Items, false, prog, fc, &st)
 	case progFlat:
 		// every registration spelled with its full path on the root app; a group's middleware is
@@ -537,6 +538,9 @@ func (e *exec) build(t *tree, c rcfg, prog int, plan map[int]int) (h fasthttp.Re
 			}
 		}
 		reg(nil, t.Items)
+	}
+	if prog == progMountRebuild {
+		app.RebuildTree()
 	}
 	return app.Handler(), ""
 }
